@@ -90,7 +90,7 @@ func (p *Proc) modScan(fi *FuncInfo, info *types.Info, n ast.Node, depth int) *m
 				m.heap["MC:"+id] = ArrSort(SInt, SInt)
 			case *types.Slice:
 				es := p.ctx.sortOf(bt.Elem())
-				m.heap["SH:"+string(es)] = ArrSort(SInt, ArrSort(SInt, es))
+				m.heap[p.sliceHeapKey(bt.Elem())] = ArrSort(SInt, ArrSort(SInt, es))
 			case *types.Array:
 				if id := rootIdent(l); id != nil {
 					if v, ok := info.Uses[id].(*types.Var); ok {
@@ -142,7 +142,7 @@ func (p *Proc) modScan(fi *FuncInfo, info *types.Info, n ast.Node, depth int) *m
 						t := info.TypeOf(x.Args[0])
 						if sl, ok := t.Underlying().(*types.Slice); ok {
 							es := p.ctx.sortOf(sl.Elem())
-							m.heap["SH:"+string(es)] = ArrSort(SInt, ArrSort(SInt, es))
+							m.heap[p.sliceHeapKey(sl.Elem())] = ArrSort(SInt, ArrSort(SInt, es))
 						}
 						m.heap["AL:"] = ArrSort(SInt, SBool)
 					case "delete":
@@ -161,7 +161,7 @@ func (p *Proc) modScan(fi *FuncInfo, info *types.Info, n ast.Node, depth int) *m
 								m.heap["MC:"+id] = ArrSort(SInt, SInt)
 							case *types.Slice:
 								es := p.ctx.sortOf(ut.Elem())
-								m.heap["SH:"+string(es)] = ArrSort(SInt, ArrSort(SInt, es))
+								m.heap[p.sliceHeapKey(ut.Elem())] = ArrSort(SInt, ArrSort(SInt, es))
 							}
 						}
 					}
@@ -285,7 +285,7 @@ func (p *Proc) contractMod(m *modset, ct *Contract) {
 				if strings.HasPrefix(k.key, "$pfx:") {
 					pfx := strings.TrimPrefix(k.key, "$pfx:")
 					for hk, t := range p.heapEntry {
-						if strings.HasPrefix(hk, pfx) {
+						if keyMatches(hk, pfx) {
 							m.heap[hk] = t.Sort
 						}
 					}
@@ -444,7 +444,7 @@ func (p *Proc) havocPrefix(st *State, prefix string) {
 	}
 	var ks []string
 	for k := range keys {
-		if strings.HasPrefix(k, prefix) {
+		if keyMatches(k, prefix) {
 			ks = append(ks, k)
 		}
 	}
@@ -452,8 +452,7 @@ func (p *Proc) havocPrefix(st *State, prefix string) {
 	for _, k := range ks {
 		p.havocHeap(st, k, keys[k])
 	}
-	p.havocEpoch++
-	st.heap["$pfx:"+prefix] = IntLit(int64(p.havocEpoch))
+	st.hv = &havocTree{leaf: true, patterns: []string{prefix}, prev: st.hv, cache: map[string]*Term{}}
 }
 
 // heapMonotone keeps facts that survive any modification (allocation only grows, nil map stays empty).
@@ -492,19 +491,16 @@ func (p *Proc) havocAll(st *State) {
 		if strings.HasPrefix(k, "G:") && !p.ctx.ghostHavocable(k) {
 			continue
 		}
-		if k == "$epoch" {
-			continue
-		}
+
 		old := p.heapGet(st, k, keys[k])
 		nh := p.havocHeap(st, k, keys[k])
 		p.heapMonotone(st, k, old, nh)
 	}
-	// heap arrays first touched after this point must not be equal to their entry value
-	p.havocEpoch++
-	st.heap["$epoch"] = IntLit(int64(p.havocEpoch))
+	// heap arrays first touched after this point are fresh, too
+	st.hv = &havocTree{leaf: true, all: true, prev: st.hv, cache: map[string]*Term{}}
 }
 
-func (c *Ctx) ghostHavocable(k string) bool { return false }
+func (c *Ctx) ghostHavocable(k string) bool { return !strings.HasPrefix(k, "G:$") }
 
 // ---------------------------------------------------------------------------
 // assigns clauses
@@ -591,12 +587,16 @@ func (p *Proc) evalLoc(ec *ectx, e ast.Expr) []loc {
 				}
 			case *types.Slice:
 				es := p.ctx.sortOf(ut.Elem())
-				return []loc{{key: "SH:" + string(es), sort: ArrSort(SInt, ArrSort(SInt, es)), ref: SlArr(v.T), inner: true}}
+				return []loc{{key: p.sliceHeapKey(ut.Elem()), sort: ArrSort(SInt, ArrSort(SInt, es)), ref: SlArr(v.T), inner: true}}
 			}
 			p.failf(e, "%s: assigns: elems() of %s", ec.where, v.Typ)
 		}
 		if id, ok := x.Fun.(*ast.Ident); ok && id.Name == "alloc" {
 			return []loc{{key: "AL:", sort: ArrSort(SInt, SBool)}}
+		}
+		if id, ok := x.Fun.(*ast.Ident); ok && id.Name == "funcqueues" {
+			// the contents of every []func() (work queues)
+			return []loc{{key: "$pfx:SH:func()", sort: SBool}}
 		}
 		if id, ok := x.Fun.(*ast.Ident); ok && id.Name == "containers" {
 			// the contents of every slice and map
@@ -605,7 +605,7 @@ func (p *Proc) evalLoc(ec *ectx, e ast.Expr) []loc {
 		if id, ok := x.Fun.(*ast.Ident); ok && id.Name == "pkgstate" {
 			// every field of every struct type declared in the named package
 			pn := x.Args[0].(*ast.Ident).Name
-			return []loc{{key: "$pfx:F:S_" + pn + "_", sort: SBool}}
+			return []loc{{key: "$pfx:F:S_" + pn + "_", sort: SBool}, {key: "$pfx:~" + pn + ".", sort: SBool}}
 		}
 	}
 	p.failf(e, "%s: unsupported assigns entry", ec.where)
@@ -709,13 +709,13 @@ func (p *Proc) checkFrame(st *State, n ast.Node) {
 			}
 		}
 	}
-	if st.heap["$epoch"] != nil {
+	if st.hv.hasAll() {
 		p.oblige(st, "frame", "frame[havoc]", tags, TFalse, p.where(n))
 		return
 	}
 	al0 := p.heapGet(p.entry, "AL:", ArrSort(SInt, SBool))
 	for _, k := range sortedKeys(st.heap) {
-		if k == "AL:" || k == "$epoch" || strings.HasPrefix(k, "$pfx:") || p.wholePrefix(whole, k) || whole[k] || strings.HasPrefix(k, "IF:") || strings.HasPrefix(k, "G:$") {
+		if k == "AL:" || p.wholePrefix(whole, k) || whole[k] || strings.HasPrefix(k, "IF:") || strings.HasPrefix(k, "G:$") {
 			continue
 		}
 		now := st.heap[k]
@@ -768,7 +768,7 @@ func (p *Proc) varOfExpr(ec *ectx, e ast.Expr) *types.Var {
 
 func (p *Proc) wholePrefix(whole map[string]bool, k string) bool {
 	for w := range whole {
-		if strings.HasPrefix(w, "$pfx:") && strings.HasPrefix(k, strings.TrimPrefix(w, "$pfx:")) {
+		if strings.HasPrefix(w, "$pfx:") && keyMatches(k, strings.TrimPrefix(w, "$pfx:")) {
 			return true
 		}
 	}
